@@ -356,8 +356,26 @@ def varint_writer(ctx: Ctx, vfn: Func) -> None:
         okf = k["fast"] == k["mask"] and len(fast_ret) == 1 and norm(fast_ret[0].body[0].value) in (f"bytes(({p},))", f"bytes([{p}])")
         ctx.ob("C02.R2", vfn, "varint writer: single-byte fast path exactly for values <= mask", okf, f"bound {k.get('fast')}")
     loops = [n for n in own_nodes(vfn.node) if isinstance(n, ast.While)]
-    ctx.ob("C02.R2", vfn, "varint writer: emits groups while value remains (minimal encoding)", len(loops) == 1 and norm(loops[0].test) in (p, f"{p} > 0", f"{p} != 0"), f"{[norm(l.test) for l in loops]}")
-    if len(loops) == 1:
+    # second accepted idiom: `while v > mask: append((v & mask) | cont); v >>= shift` followed by `append(v)`
+    idiom_b = len(loops) == 1 and norm(loops[0].test) in (f"{p} > {k['mask']}", f"{p} >= {k['cont']}", f"{k['mask']} < {p}", f"{k['cont']} <= {p}")
+    if idiom_b:
+        lp = loops[0]
+        apps = [x.value for x in lp.body if isinstance(x, ast.Expr) and isinstance(x.value, ast.Call) and norm(x.value.func).endswith(".append")]
+        shifts = [i for i, x in enumerate(lp.body) if isinstance(x, ast.AugAssign) and isinstance(x.op, ast.RShift) and norm(x.target) == p and norm(x.value) == str(k["shift"])]
+        app_idx = [i for i, x in enumerate(lp.body) if isinstance(x, ast.Expr) and isinstance(x.value, ast.Call) and norm(x.value.func).endswith(".append")]
+        grp = norm(inline(vfn, apps[0].args[0])) if len(apps) == 1 else ""
+        okg = grp.replace(" ", "") in (f"{p}&{k['mask']}|{k['cont']}", f"({p}&{k['mask']})|{k['cont']}", f"{k['cont']}|{p}&{k['mask']}")
+        ctx.ob("C02.R2", vfn, "varint writer: emits groups while value remains (minimal encoding)", len(apps) == 1 and len(shifts) == 1 and len(lp.body) == 2 and not lp.orelse, f"loop `{norm(lp.test)}` body {[norm(x)[:40] for x in lp.body]}")
+        ctx.ob("C02.R2", vfn, "varint writer: group extracted before the shift, continuation decided after it", okg and bool(app_idx) and bool(shifts) and app_idx[0] < shifts[0], f"group {grp}")
+        # the final group: appended once after the loop, without the continuation bit
+        body = vfn.node.body
+        li = body.index(lp) if lp in body else -1
+        tail = [x.value for x in body[li + 1:] if isinstance(x, ast.Expr) and isinstance(x.value, ast.Call) and norm(x.value.func).endswith(".append")] if li >= 0 else []
+        okt = len(tail) == 1 and norm(tail[0].args[0]).replace(" ", "") in (p, f"{p}&{k['mask']}") and (len(apps) == 1 and norm(tail[0].func) == norm(apps[0].func))
+        ctx.ob("C02.R2", vfn, "varint writer: continuation bit set iff more groups follow", bool(okt), f"final group {[norm(t.args[0]) for t in tail]}")
+    else:
+        ctx.ob("C02.R2", vfn, "varint writer: emits groups while value remains (minimal encoding)", len(loops) == 1 and norm(loops[0].test) in (p, f"{p} > 0", f"{p} != 0"), f"{[norm(l.test) for l in loops]}")
+    if len(loops) == 1 and not idiom_b:
         body = loops[0].body
         # order: group taken before the shift; continuation decided by the remaining value
         idx_mask = next((i for i, s in enumerate(body) if isinstance(s, ast.Assign) and isinstance(s.value, ast.BinOp) and isinstance(s.value.op, ast.BitAnd) and norm(s.value.left) == p), None)
